@@ -6,7 +6,7 @@ from .common import emit_struct, emit_method, emit_free_fn, emit_error_enum, imp
 from .u6_root import prelude_types
 
 NAME = 'u21_entry'
-PROPS = ['C12', 'C18', 'C02', 'C05', 'C06', 'C01']
+PROPS = ['C12', 'C18', 'C02', 'C05', 'C06', 'C01', 'C14']
 D = 'src/decoder.rs'
 DT = 'src/detector.rs'
 
